@@ -229,7 +229,27 @@ def init_values(case, block):
     return regs, mems
 
 
-def run_testbench(case, ob, site):
+class _Trace(object):
+    pc = []
+    exc = None
+
+
+def concrete_tb_run(block, kind, K, regs0, mems0, inputs_of):
+    """the real simulator on plain ints and plain dicts (replay): returns (tracer, trace-holder)"""
+    tracked = sorted(block.wirevector_subset((pyrtl.Input, pyrtl.Output)), key=lambda w: w.name)
+    tracer = pyrtl.SimulationTrace(wires_to_track=tracked, block=block)
+    rmap = {r: regs0[r.name] for r in block.wirevector_subset(pyrtl.Register) if r.name in regs0}
+    mmap = {m: dict(mems0[m.name]) for m in simdrv.mems_of(block).values() if m.name in mems0 and not isinstance(m, pyrtl.RomBlock)}
+    cls = {'sim': pyrtl.Simulation, 'fast': pyrtl.FastSimulation, 'compiled': pyrtl.CompiledSimulation}[kind]
+    sim = cls(tracer=tracer, register_value_map=rmap, memory_value_map=mmap, block=block)
+    for t in range(K):
+        sim.step({w.name: inputs_of(w, t) for w in block.wirevector_subset(pyrtl.Input)})
+    r = _Trace()
+    r.trace = {w.name: list(tracer.trace[w.name]) for w in tracked}
+    return tracer, r
+
+
+def run_testbench(case, ob, site, concrete_inputs=None):
     block = designs.build(case)
     if not exportable(block):
         return ob.fact('skipped-nand', True)
@@ -241,22 +261,41 @@ def run_testbench(case, ob, site):
     assume = [z3.Not(d) for d in spec.run(block, K, v, reg_init=regs0, mem_init='default').double_write]
 
     def after(sim, t):
-        holder['tracer'] = sim.tracer
-        return None
-    if kind == 'compiled':
+        return sim.tracer           # per explored path: that path's own tracer object
+    if concrete_inputs is not None:
+        assume = []
+        tracer, r0 = concrete_tb_run(block, kind, K, regs0, mems0, concrete_inputs)
+        r0.extra = [tracer]
+        rs = [r0]
+    elif kind == 'compiled':
         cm = CompiledModel(block, regvals=regs0, memvals=mems0)
         rs = run_compiled(cm, K, v)
-        tracer = cm.sim.tracer
+        if len([r for r in rs if r.exc is None]) != 1:
+            return ob.fact('skipped-multi-path-trace', True)
+        for r in rs:
+            r.extra = [cm.sim.tracer]
     else:
-        meminit = {mem.name: SymMem.from_dict(mems0.get(mem.name, {}), 0, mem.addrwidth, mem.bitwidth) for mem in simdrv.mems_of(block).values()}
-        # the user-facing call: plain dict contents (what a testbench author passes), kept concrete for the '%d' formatting
+        # the memory_value_map entries are TrackMem objects: the simulator and the trace hold whatever object relations the
+        # real code creates (a recorded initial state that aliases the live memory sees the simulation's writes)
+        meminit = {mem.name: sym.TrackMem.from_words(mems0.get(mem.name, {}), 0, mem.addrwidth, mem.bitwidth)
+                   for mem in simdrv.mems_of(block).values() if not isinstance(mem, pyrtl.RomBlock)}
         with sym_env([block]):
-            rs = run_sim(block, K, v, kind=kind, reg_init=regs0, mem_init={k: dict(d) for k, d in mems0.items()}, track='io', after_step=after)
-        tracer = holder.get('tracer')
-    rs = [r for r in rs if r.exc is None]
-    if len(rs) != 1 or tracer is None:
-        return ob.fact('skipped-multi-path-trace', True)
-    r = rs[0]
+            rs = run_sim(block, K, v, kind=kind, reg_init=regs0, mem_init=meminit, track='io', after_step=after, assumptions=assume)
+    rs = [r for r in rs if r.exc is None and r.extra]
+    if not rs:
+        return ob.fact('skipped-no-trace', True)
+    ob.paths += len(rs)
+    # one testbench per explored path (write-enable decisions): each path has its own trace object
+    for r in rs[:6]:
+        _check_testbench(case, ob, site, block, r, r.extra[-1], regs0, mems0, assume, v)
+
+
+def _check_testbench(case, ob, site, block, r, tracer, regs0, mems0, assume, v):
+    ar, K, kind = case['add_reset'], case['K'], case['sim']
+    polluted = [mid for mid, mv in getattr(tracer, 'init_memvalue', {}).items() if isinstance(mv, sym.TrackMem) and mv.writes]
+    if not ob.fact('recorded-initial-memory-state-is-a-snapshot', not polluted, site + ':tb-mem-init',
+                   detail='the trace\'s initial memory contents changed while simulating (memory ids %r)' % polluted):
+        return
     try:
         text = export(block, ar)
         mod = vtrans.Module(text)
@@ -351,7 +390,19 @@ def replay(cex):
     module on the model's concrete inputs against the real Simulation"""
     case = cex['case']
     from ..core import Obligations
-    if cex.get('structural') or case['k'] == 'testbench':
+    if case['k'] == 'testbench':
+        # the real simulator on plain ints/dicts, the real exporter, the parsed text checked concretely
+        mv = cex.get('model', {}).get('inputs', {})
+
+        def inputs_of(w, t):
+            x = mv.get(w.name, {})
+            val = x.get(str(t), x.get(t))
+            return ((t * 5 + 3) & w.bitmask) if val is None else val
+        ob = Obligations(PROP, case, 30000)
+        run_testbench(case, ob, site_of(case), concrete_inputs=inputs_of)
+        bad = [x['obligation'] for x in ob.sat]
+        return bool(bad), 'testbench from a concrete %s run of the real code: failing %r' % (case['sim'], bad[:6])
+    if cex.get('structural'):
         ob = Obligations(PROP, case, 30000)
         run_case(case, ob, 'quick')
         bad = [x['obligation'] for x in ob.sat]
